@@ -195,6 +195,7 @@ type FuncVC struct {
 	lenient bool
 	inert bool
 	replayTemplate string
+	appendOrd      map[ssa.Value]int
 	mentions       map[string]bool
 	iterInit       map[string]bool
 	covers         map[*Clause][]string // ensures clause A ==> B: (reach && A) at each return
@@ -733,6 +734,12 @@ func (fv *FuncVC) ghostTerm(st *State, key string, s Sort) Term {
 	t := Term{S: name, Sort: s}
 	fv.entry.ghost[key] = t
 	st.ghost[key] = t
+	if key == "cov" {
+		save := fv.inBlocks
+		fv.inBlocks = false
+		fv.assert(app("=", name, "0")) // nothing of the input is accounted for on entry
+		fv.inBlocks = save
+	}
 	return t
 }
 
